@@ -1,7 +1,492 @@
-use crate::direct::CaseOut;
+//! C19: invalid requests are refused locally without trace; legal properties are accepted; QoS cap.
+use crate::direct::{guarded, hash_of, sweep, CaseOut};
+use crate::direct2::*;
 use crate::explore::Caps;
 use crate::families::Tier;
+use crate::mqtt_ref::{self as mr, CPacket, PType, PVal, Prop, ALL_PROP_IDS};
 use crate::report::FamilyReport;
-use serde_json::Value;
-pub fn run(_tier: Tier, _caps: &Caps) -> Vec<FamilyReport> { vec![] }
-pub fn replay(_name: &str, _case: &Value) -> Option<CaseOut> { None }
+use crate::world::{Res, VirtualIo};
+use minimq::{Connection, Disconnect, Op, Publication, QoS, TopicFilter};
+use serde::{Deserialize, Serialize};
+use serde_json::{json, Value};
+
+fn flag(viol: &mut Vec<(String, String)>, rule: &str, ctx: &str, detail: String) {
+    viol.push((format!("C19:{}:{}", rule, ctx), detail));
+}
+
+#[derive(Copy, Clone, PartialEq, Eq, Debug)]
+enum Want {
+    Accept,
+    Reject,
+    Either,
+}
+
+const CTX_NAMES: [&str; 5] = ["publish", "subscribe", "unsubscribe", "disconnect", "will"];
+
+/// MQTT 5 sections 3.1.3.2 (will), 3.3.2.3 (PUBLISH), 3.8.2.1, 3.10.2.1, 3.14.2.2: what a *client* may attach.
+fn want(ctx: u8, p: &Prop) -> Want {
+    let value_ok = match (p.id, &p.val) {
+        (0x01, PVal::Byte(v)) => *v <= 1,
+        (0x0B, PVal::Var(v)) => *v >= 1 && *v <= 268_435_455,
+        (0x23, PVal::U16(v)) => *v != 0,
+        _ => true,
+    };
+    let allowed = match ctx {
+        0 => matches!(p.id, 0x01 | 0x02 | 0x03 | 0x08 | 0x09 | 0x26 | 0x23),
+        1 => matches!(p.id, 0x0B | 0x26),
+        2 => matches!(p.id, 0x26),
+        3 => matches!(p.id, 0x11 | 0x1F | 0x26 | 0x1C),
+        _ => matches!(p.id, 0x18 | 0x01 | 0x02 | 0x03 | 0x08 | 0x09 | 0x26),
+    };
+    if !allowed || !value_ok {
+        return Want::Reject;
+    }
+    // a topic alias is only legal up to the Topic Alias Maximum the broker announced (none here);
+    // a server reference in a client DISCONNECT is legal but meaningless; response topics must not
+    // contain wildcards (not exercised): the property statement does not pin these down
+    if (ctx == 0 && p.id == 0x23) || (ctx == 3 && p.id == 0x1C) {
+        return Want::Either;
+    }
+    Want::Accept
+}
+
+fn values_for(id: u8) -> Vec<PVal> {
+    match mr::prop_type(id as u32).unwrap() {
+        PType::Byte => vec![PVal::Byte(0), PVal::Byte(1), PVal::Byte(2), PVal::Byte(255)],
+        PType::U16 => vec![PVal::U16(0), PVal::U16(1), PVal::U16(65535)],
+        PType::U32 => vec![PVal::U32(0), PVal::U32(1), PVal::U32(0xFFFF_FFFF)],
+        PType::Var => vec![PVal::Var(0), PVal::Var(1), PVal::Var(268_435_455), PVal::Var(268_435_456)],
+        PType::Str => vec![PVal::Str(vec![]), PVal::Str(b"x".to_vec()), PVal::Str(vec![b's'; 40])],
+        PType::Bin => vec![PVal::Bin(vec![]), PVal::Bin(vec![0]), PVal::Bin(vec![0xFE; 40])],
+        PType::Pair => vec![PVal::Pair(vec![], vec![]), PVal::Pair(b"k".to_vec(), b"v".to_vec())],
+    }
+}
+
+#[derive(Clone, Debug, Serialize, Deserialize)]
+pub struct PropCase {
+    pub ctx: u8,
+    pub id: u8,
+    pub value: usize,
+    /// 0 fresh connection, 1 requests in flight, 2 send quota exhausted, 3 dead handle
+    pub state: u8,
+    /// QoS of the publish (ctx 0)
+    pub qos: u8,
+    /// a second, legal property in front of / behind the one under test (0 none, 1 before, 2 after)
+    pub companion: u8,
+}
+
+#[derive(Clone, Debug, PartialEq)]
+struct Snapshot {
+    quiescent: bool,
+    statuses: Vec<(bool, bool, bool)>,
+    send_quota: u16,
+    retained: usize,
+    pending_release: usize,
+    pending_control: usize,
+    connected: bool,
+    can_publish: (bool, bool, bool),
+}
+
+fn snapshot(conn: &Connection<'_, '_, VirtualIo>, handles: &[Op]) -> Snapshot {
+    let rt = conn.session().verif_runtime();
+    Snapshot {
+        quiescent: conn.session().is_publish_quiescent(),
+        statuses: handles.iter().map(|h| (conn.is_pending(h), conn.is_complete(h), conn.is_invalidated(h))).collect(),
+        send_quota: rt.send_quota,
+        retained: rt.retained,
+        pending_release: rt.pending_release,
+        pending_control: rt.pending_control,
+        connected: conn.is_connected(),
+        can_publish: (conn.can_publish(QoS::AtMostOnce), conn.can_publish(QoS::AtLeastOnce), conn.can_publish(QoS::ExactlyOnce)),
+    }
+}
+
+/// Bring the connection into `state`; returns handles issued on the way.
+fn prepare(bench: &crate::bench::Bench, conn: &mut Connection<'_, '_, VirtualIo>, id: usize, state: u8) -> Vec<Op> {
+    let mut handles = Vec::new();
+    if state == 1 || state == 2 {
+        if let Some(Ok(Some(h))) = bench.run(conn.publish(Publication::bytes("t", b"a").qos(QoS::AtLeastOnce)), id) {
+            handles.push(h);
+        }
+    }
+    if state == 1 {
+        if let Some(Ok(h)) = bench.run(conn.subscribe(&[TopicFilter::new("f")], &[]), id) {
+            handles.push(h);
+        }
+        if let Some(Ok(Some(h))) = bench.run(conn.publish(Publication::bytes("t", b"b").qos(QoS::ExactlyOnce)), id) {
+            handles.push(h);
+        }
+    }
+    if state == 3 {
+        bench.push(id, &[0xE0, 0x00]);
+        let _ = bench.run(conn.poll(), id);
+    }
+    handles
+}
+
+pub fn eval_prop(c: &PropCase) -> CaseOut {
+    guarded("C19", || {
+        let mut viol = Vec::new();
+        let vals = values_for(c.id);
+        let under_test = Prop { id: c.id, val: vals[c.value % vals.len()].clone() };
+        let w = want(c.ctx, &under_test);
+        let companion = Prop { id: 0x26, val: PVal::Pair(b"c".to_vec(), b"d".to_vec()) };
+        let props_ref: Vec<Prop> = match c.companion {
+            1 => vec![companion, under_test.clone()],
+            2 => vec![under_test.clone(), companion],
+            _ => vec![under_test.clone()],
+        };
+        let ctxn = CTX_NAMES[c.ctx as usize];
+        let pname = format!("{}-prop{:02x}", ctxn, c.id);
+        if c.ctx == 4 {
+            // will: validated when the configuration is built
+            let mut spec = Spec::plain(64, 256);
+            spec.will = Some(WillSpec { topic: "w".into(), data: b"x".to_vec(), qos: 1, retain: false, props: props_ref.clone() });
+            let out = with_session(&spec, |bench, s| match connect(bench, s, &connack(false, vec![])) {
+                Conn::Ok(_, id) => Ok(bench.written(id)),
+                Conn::Err(e, _) => Err(e),
+                Conn::Blocked(_) => Err(Res::Cancelled),
+            });
+            let class;
+            match out {
+                Built::Config(e) => {
+                    class = 1;
+                    if e != "InvalidConfig" {
+                        flag(&mut viol, "wrong-error", &pname, format!("will with {:?} refused with {}", props_ref, e));
+                    }
+                    if w == Want::Accept {
+                        flag(&mut viol, "legal-property-refused", &pname, format!("will property {:?} is legal in MQTT 5 but Will::new refuses it ({})", under_test, e));
+                    }
+                }
+                Built::Ran(r) => {
+                    class = 2;
+                    if w == Want::Reject {
+                        flag(&mut viol, "illegal-property-accepted", &pname, format!("will property {:?} is not legal for a will but was accepted", under_test));
+                    }
+                    match r {
+                        Ok(written) => match mr::decode_client(&written) {
+                            Ok((CPacket::Connect(cp), _)) => {
+                                if w != Want::Reject && cp.will.as_ref().map(|x| x.props.clone()) != Some(props_ref.clone()) {
+                                    flag(&mut viol, "property-not-sent", &pname, format!("CONNECT will properties {:?}, configured {:?}", cp.will.map(|x| x.props), props_ref));
+                                }
+                            }
+                            other => {
+                                if w == Want::Accept {
+                                    flag(&mut viol, "undecodable", &pname, format!("CONNECT with accepted will properties does not decode: {:?}", other.map(|x| x.0.name())));
+                                }
+                            }
+                        },
+                        Err(e) => {
+                            if w == Want::Accept && e != Res::BufferTooSmall {
+                                flag(&mut viol, "connect-fails", &pname, format!("connect with a legal will fails with {:?}", e));
+                            }
+                        }
+                    }
+                }
+            }
+            return CaseOut { class: hash_of(&(c.ctx, class, w == Want::Accept)), viol };
+        }
+        let spec = Spec::plain(64, 256);
+        let out = with_session(&spec, |bench, s| {
+            let ca = connack(false, if c.state == 2 { vec![Prop { id: 0x21, val: PVal::U16(1) }] } else { vec![] });
+            let Conn::Ok(mut conn, id) = connect(bench, s, &ca) else { return None };
+            let handles = prepare(bench, &mut conn, id, c.state);
+            let before = snapshot(&conn, &handles);
+            let io_before = bench.io_counts(id);
+            let wrote_before = bench.written(id).len();
+            let props = props_of(&props_ref);
+            let r: Result<bool, Res> = match c.ctx {
+                0 => bench
+                    .run(conn.publish(Publication::bytes("t", b"zz").qos(qos_of(c.qos)).properties(&props)), id)
+                    .map(|r| r.map(|h| h.is_some()).map_err(|e| Res::from_pub(&e)))
+                    .unwrap_or(Err(Res::Cancelled)),
+                1 => bench
+                    .run(conn.subscribe(&[TopicFilter::new("g")], &props), id)
+                    .map(|r| r.map(|_| true).map_err(|e| Res::from_err(&e)))
+                    .unwrap_or(Err(Res::Cancelled)),
+                2 => bench
+                    .run(conn.unsubscribe(&["g"], &props), id)
+                    .map(|r| r.map(|_| true).map_err(|e| Res::from_err(&e)))
+                    .unwrap_or(Err(Res::Cancelled)),
+                _ => bench
+                    .run(conn.disconnect_with(Disconnect::success().with_properties(&props)), id)
+                    .map(|r| r.map(|_| false).map_err(|e| Res::from_err(&e)))
+                    .unwrap_or(Err(Res::Cancelled)),
+            };
+            let after = snapshot(&conn, &handles);
+            Some((r, before, after, io_before, bench.io_counts(id), bench.written(id)[wrote_before..].to_vec()))
+        });
+        let Built::Ran(Some((r, before, after, io0, io1, written))) = out else { panic!("machinery: setup failed") };
+        let class;
+        if c.state == 3 {
+            // dead handle: documented results, no I/O, whatever the properties are
+            class = 10;
+            let ok = if c.ctx == 3 { r == Ok(false) } else { r == Err(Res::Disconnected) };
+            if !ok {
+                flag(&mut viol, "dead-handle-result", ctxn, format!("{} on a dead handle returned {:?}", ctxn, r));
+            }
+            if io0 != io1 || !written.is_empty() {
+                flag(&mut viol, "dead-handle-io", ctxn, format!("{} on a dead handle touched the transport", ctxn));
+            }
+            if before != after {
+                flag(&mut viol, "dead-handle-trace", ctxn, format!("{} on a dead handle changed session state: {:?} -> {:?}", ctxn, before, after));
+            }
+        } else {
+            match (&r, w) {
+                (Err(Res::InvalidRequest), Want::Accept) => {
+                    class = 3;
+                    flag(&mut viol, "legal-property-refused", &pname, format!("{:?} is legal for {} but the request was refused as invalid", under_test, ctxn));
+                }
+                (Err(Res::InvalidRequest), _) => {
+                    class = 4;
+                    if !written.is_empty() {
+                        flag(&mut viol, "refused-but-sent", &pname, format!("refused {} wrote {}", ctxn, mr::hex(&written)));
+                    }
+                    if before != after {
+                        flag(&mut viol, "refused-leaves-trace", &pname, format!("refused {} changed session state: {:?} -> {:?}", ctxn, before, after));
+                    }
+                }
+                (_, Want::Reject) => {
+                    class = 5;
+                    flag(&mut viol, "illegal-property-accepted", &pname, format!("{:?} is not legal for {} but the request returned {:?} (wrote {})", under_test, ctxn, r, mr::hex(&written)));
+                }
+                (Ok(_), _) => {
+                    class = 6;
+                    // the accepted property must be on the wire
+                    let sent = mr::decode_client(&written).ok().map(|(p, _)| match p {
+                        CPacket::Publish(pp) => pp.props,
+                        CPacket::Subscribe { props, .. } | CPacket::Unsubscribe { props, .. } | CPacket::Disconnect { props, .. } => props,
+                        _ => vec![],
+                    });
+                    if w == Want::Accept && sent != Some(props_ref.clone()) {
+                        flag(&mut viol, "property-not-sent", &pname, format!("{} accepted {:?} but the wire carries {:?} ({})", ctxn, props_ref, sent, mr::hex(&written)));
+                    }
+                }
+                (Err(e), _) => {
+                    // a local capacity answer is not a rejection of the property
+                    class = 7;
+                    let capacity = matches!(e, Res::NotReady | Res::BufferTooSmall | Res::InflightExhausted | Res::PacketTooLarge);
+                    if !capacity {
+                        flag(&mut viol, "unexpected-error", &format!("{}-{:?}", pname, e), format!("{} with {:?} returned {:?}", ctxn, props_ref, e));
+                    }
+                    if !written.is_empty() {
+                        flag(&mut viol, "refused-but-sent", &pname, format!("{} failed with {:?} but wrote {}", ctxn, e, mr::hex(&written)));
+                    }
+                    if before != after && c.ctx != 3 {
+                        flag(&mut viol, "refused-leaves-trace", &pname, format!("{} failed with {:?} and changed session state: {:?} -> {:?}", ctxn, e, before, after));
+                    }
+                }
+            }
+        }
+        CaseOut { class: hash_of(&(c.ctx, c.state, class)), viol }
+    })
+}
+
+#[derive(Clone, Debug, Serialize, Deserialize)]
+pub struct EmptyCase {
+    pub unsubscribe: bool,
+    pub state: u8,
+}
+
+pub fn eval_empty(c: &EmptyCase) -> CaseOut {
+    guarded("C19", || {
+        let mut viol = Vec::new();
+        let spec = Spec::plain(64, 256);
+        let out = with_session(&spec, |bench, s| {
+            let ca = connack(false, if c.state == 2 { vec![Prop { id: 0x21, val: PVal::U16(1) }] } else { vec![] });
+            let Conn::Ok(mut conn, id) = connect(bench, s, &ca) else { return None };
+            let handles = prepare(bench, &mut conn, id, c.state);
+            let before = snapshot(&conn, &handles);
+            let wrote_before = bench.written(id).len();
+            let r = if c.unsubscribe {
+                bench.run(conn.unsubscribe(&[], &[]), id).map(|r| r.map(|_| ()).map_err(|e| Res::from_err(&e)))
+            } else {
+                bench.run(conn.subscribe(&[], &[]), id).map(|r| r.map(|_| ()).map_err(|e| Res::from_err(&e)))
+            }
+            .unwrap_or(Err(Res::Cancelled));
+            let after = snapshot(&conn, &handles);
+            Some((r, before, after, bench.written(id)[wrote_before..].to_vec()))
+        });
+        let Built::Ran(Some((r, before, after, written))) = out else { panic!("machinery: setup failed") };
+        let name = if c.unsubscribe { "unsubscribe" } else { "subscribe" };
+        let want = if c.state == 3 { Err(Res::Disconnected) } else { Err(Res::InvalidRequest) };
+        if r != want {
+            flag(&mut viol, "empty-list-result", name, format!("{} with an empty list returned {:?}, documented {:?}", name, r, want));
+        }
+        if !written.is_empty() {
+            flag(&mut viol, "refused-but-sent", &format!("{}-empty", name), format!("wrote {}", mr::hex(&written)));
+        }
+        if before != after {
+            flag(&mut viol, "refused-leaves-trace", &format!("{}-empty", name), format!("{:?} -> {:?}", before, after));
+        }
+        CaseOut { class: hash_of(&(c.unsubscribe, c.state)), viol }
+    })
+}
+
+#[derive(Clone, Debug, Serialize, Deserialize)]
+pub struct QosCase {
+    pub max_qos: Option<u8>,
+    pub qos: u8,
+    pub downgrade: bool,
+    pub retain: bool,
+}
+
+pub fn eval_qos(c: &QosCase) -> CaseOut {
+    guarded("C19", || {
+        let mut viol = Vec::new();
+        let mut spec = Spec::plain(64, 256);
+        spec.downgrade = c.downgrade;
+        let out = with_session(&spec, |bench, s| {
+            let ca = connack(false, c.max_qos.map(|q| vec![Prop { id: 0x24, val: PVal::Byte(q) }]).unwrap_or_default());
+            let Conn::Ok(mut conn, id) = connect(bench, s, &ca) else { return None };
+            let wrote_before = bench.written(id).len();
+            let mut p = Publication::bytes("t", b"zz").qos(qos_of(c.qos));
+            if c.retain {
+                p = p.retain();
+            }
+            let r = bench.run(conn.publish(p), id).map(|r| r.map_err(|e| Res::from_pub(&e))).unwrap_or(Err(Res::Cancelled));
+            let written = bench.written(id)[wrote_before..].to_vec();
+            let mut trail = Vec::new();
+            if let Ok(Some(h)) = &r {
+                trail.push(conn.is_pending(h));
+                let pid = mr::decode_client(&written).ok().and_then(|(p, _)| p.pid()).unwrap_or(1);
+                let (hi, lo) = ((pid >> 8) as u8, pid as u8);
+                // acknowledge as the QoS on the wire demands
+                let wire_qos = mr::decode_client(&written).ok().map(|(p, _)| match p {
+                    CPacket::Publish(pp) => pp.qos,
+                    _ => 9,
+                });
+                if wire_qos == Some(1) {
+                    bench.push(id, &[0x40, 0x02, hi, lo]);
+                    let _ = bench.run(conn.poll(), id);
+                    trail.push(conn.is_complete(h));
+                } else if wire_qos == Some(2) {
+                    bench.push(id, &[0x50, 0x02, hi, lo]);
+                    let _ = bench.run(conn.poll(), id);
+                    trail.push(conn.is_pending(h));
+                    bench.push(id, &[0x70, 0x02, hi, lo]);
+                    let _ = bench.run(conn.poll(), id);
+                    trail.push(conn.is_complete(h));
+                }
+            }
+            Some((r.map(|h| h.is_some()), written, trail))
+        });
+        let Built::Ran(Some((r, written, trail))) = out else { panic!("machinery: setup failed") };
+        let limit = c.max_qos.unwrap_or(2);
+        let ctx = format!("max{:?}-req{}-downgrade{}", c.max_qos, c.qos, c.downgrade);
+        let wire = mr::decode_client(&written).ok().map(|(p, _)| p);
+        let wire_qos = match &wire {
+            Some(CPacket::Publish(pp)) => Some(pp.qos),
+            _ => None,
+        };
+        if c.downgrade {
+            let used = c.qos.min(limit);
+            if let Some(q) = wire_qos {
+                if q > limit {
+                    flag(&mut viol, "qos-above-maximum", &ctx, format!("PUBLISH sent at QoS {} although the broker's Maximum QoS is {}", q, limit));
+                }
+            }
+            match r {
+                Ok(has_handle) => {
+                    if wire_qos != Some(used) {
+                        flag(&mut viol, "qos-not-capped-to-maximum", &ctx, format!("requested QoS {}, Maximum QoS {}: wire QoS {:?}", c.qos, limit, wire_qos));
+                    }
+                    if has_handle != (used > 0) {
+                        flag(&mut viol, "handle-does-not-match-used-qos", &ctx, format!("QoS used {} but handle present = {}", used, has_handle));
+                    }
+                    if trail.iter().any(|x| !*x) {
+                        flag(&mut viol, "handle-does-not-match-used-qos", &format!("{}-completion", ctx), format!("handle did not follow the acknowledgements of QoS {}: {:?}", used, trail));
+                    }
+                    if let Some(CPacket::Publish(pp)) = &wire {
+                        if pp.retain != c.retain || pp.payload != b"zz" || pp.topic != b"t" {
+                            flag(&mut viol, "downgrade-changes-message", &ctx, format!("downgraded PUBLISH differs from the request: {:?}", pp));
+                        }
+                    }
+                }
+                Err(e) => flag(&mut viol, "unexpected-error", &ctx, format!("publish returned {:?}", e)),
+            }
+        } else if c.qos <= limit {
+            // nothing to cap: behaves like a plain publish
+            if r != Ok(c.qos > 0) || wire_qos != Some(c.qos) {
+                flag(&mut viol, "plain-publish-changed", &ctx, format!("result {:?}, wire QoS {:?}", r, wire_qos));
+            }
+        }
+        CaseOut { class: hash_of(&(c.downgrade, wire_qos, r.is_ok())), viol }
+    })
+}
+
+pub fn run(tier: Tier, caps: &Caps) -> Vec<FamilyReport> {
+    let mut out = Vec::new();
+    let mut pc = Vec::new();
+    for ctx in 0..5u8 {
+        for id in ALL_PROP_IDS {
+            for value in 0..values_for(id).len() {
+                let states: Vec<u8> = if ctx == 4 { vec![0] } else { vec![0, 1, 2, 3] };
+                for state in states {
+                    let qoss: Vec<u8> = if ctx == 0 { vec![0, 1, 2] } else { vec![0] };
+                    for qos in qoss {
+                        for companion in 0..3u8 {
+                            if tier == Tier::Quick && companion != 0 && state != 0 {
+                                continue;
+                            }
+                            pc.push(PropCase { ctx, id, value, state, qos, companion });
+                        }
+                    }
+                }
+            }
+        }
+    }
+    out.push(sweep(
+        "C19-every-property-in-every-context",
+        "C19",
+        pc.len() as u64,
+        caps,
+        json!({"cases": pc.len(), "dimensions": "27 property kinds x boundary values (bytes 0/1/2/255, u16 0/1/65535, u32 0/1/max, varint 0/1/max/max+1, strings and binaries empty/1/40, pairs) x {publish at QoS 0/1/2, subscribe, unsubscribe, disconnect, will} x session state {fresh, requests in flight, send quota exhausted, dead handle} x {alone, behind, in front of a legal user property}; expectation table from MQTT 5 sections 3.1.3.2, 3.3.2.3, 3.8.2.1, 3.10.2.1, 3.14.2.2"}),
+        &|i| eval_prop(&pc[i as usize]),
+        &|i| serde_json::to_value(&pc[i as usize]).unwrap(),
+    ));
+    let mut ec = Vec::new();
+    for unsubscribe in [false, true] {
+        for state in 0..4u8 {
+            ec.push(EmptyCase { unsubscribe, state });
+        }
+    }
+    out.push(sweep(
+        "C19-empty-filter-lists",
+        "C19",
+        ec.len() as u64,
+        caps,
+        json!({"cases": ec.len(), "dimensions": "subscribe / unsubscribe with an empty list x 4 session states"}),
+        &|i| eval_empty(&ec[i as usize]),
+        &|i| serde_json::to_value(&ec[i as usize]).unwrap(),
+    ));
+    let mut qc = Vec::new();
+    for max_qos in [None, Some(0u8), Some(1), Some(2)] {
+        for qos in 0..3u8 {
+            for downgrade in [false, true] {
+                for retain in [false, true] {
+                    qc.push(QosCase { max_qos, qos, downgrade, retain });
+                }
+            }
+        }
+    }
+    out.push(sweep(
+        "C19-maximum-qos-and-downgrade",
+        "C19",
+        qc.len() as u64,
+        caps,
+        json!({"cases": qc.len(), "dimensions": "broker Maximum QoS {absent,0,1,2} x requested QoS x auto-downgrade on/off x retain; the handle is followed through the acknowledgements of the QoS on the wire"}),
+        &|i| eval_qos(&qc[i as usize]),
+        &|i| serde_json::to_value(&qc[i as usize]).unwrap(),
+    ));
+    out
+}
+
+pub fn replay(name: &str, case: &Value) -> Option<CaseOut> {
+    Some(match name {
+        "C19-every-property-in-every-context" => eval_prop(&serde_json::from_value(case.clone()).ok()?),
+        "C19-empty-filter-lists" => eval_empty(&serde_json::from_value(case.clone()).ok()?),
+        "C19-maximum-qos-and-downgrade" => eval_qos(&serde_json::from_value(case.clone()).ok()?),
+        _ => return None,
+    })
+}
